@@ -972,13 +972,16 @@ def summary_family(base, cat):
 
     def ovh(g):                                              # fixed metadata of group g: superblock + descriptors, bitmaps, inode table
         lo, hi = R.group_first(g), R.group_last(g)
-        n = 0
+        n, has_sb = 0, 0
         for c in ("sb", "gdt", "rsvgdt"):
             for a, b_ in fx[c]:
                 a2, b2 = max(a, lo), min(b_, hi)
                 if a2 <= b2:
-                    n += b2 - a2 + 1
-        return n + 2 + R.itb
+                    if c == "sb":
+                        has_sb = 1                        # one block, also where the boot block lies inside the file system (bigalloc, 1 KiB)
+                    else:
+                        n += b2 - a2 + 1
+        return n + has_sb + 2 + R.itb
     total = R.blocks - sum(ovh(g) for g in range(R.gdc))     # SUM of the group counts at which the data need is 0
     wide = R.has64 and R.dsize >= 64
     out = []
